@@ -126,8 +126,10 @@ def run(ctx):
         g = ctx.cfg(f)
         F = ctx.facts(f)
         dom = g.dominators()
-        calls = [x for x in walk(f) if x.get('kind') == 'CallExpr' and callee(x) and callee(x)[0] == 'fn'
-                 and qn(callee(x)[1]) == 'cctz::load_time_zone']
+        # (load_time_zone is a one-line wrapper of the loader: calling either is the same)
+        loader_qns = ('cctz::load_time_zone', loader.analyse(ctx)['key'][0])
+        calls = [x for x in walk(f) if x.get('kind') in ('CallExpr', 'CXXMemberCallExpr') and callee(x) and callee(x)[0] == 'fn'
+                 and qn(callee(x)[1]) in loader_qns]
         for rn in g.returns:
             rv = peel(kids(rn.ast)[0]) if kids(rn.ast) else None
             while rv is not None and rv.get('kind') == 'CXXConstructExpr' and len(kids(rv)) == 1:
@@ -193,9 +195,14 @@ def run(ctx):
                 a = peel(call_args(x)[0])
                 v = a.get('value', '').strip('"') if a.get('kind') == 'StringLiteral' else None
                 seen.setdefault(v, []).append((kk, x))
+    # (a documented function may have been split into file-local helpers)
+    scope_qn = {}
+    for v_, q_ in want_env.items():
+        ks_ = G.find(q_)
+        scope_qn[v_] = set([q_]) | set(qn(ff_) for k_ in ks_ for (uu_, ff_) in ctx.scope(G.defs[k_][1]))
     for v, where in sorted(seen.items(), key=lambda kv: str(kv[0])):
         for (kk, x) in where:
-            ctx.check(v in want_env and kk[0] == want_env[v], 'C19-env', 'getenv("%s") in %s' % (v, fname(kk)), x,
+            ctx.check(v in want_env and kk[0] in scope_qn.get(v, ()), 'C19-env', 'getenv("%s") in %s' % (v, fname(kk)), x,
                       'an environment variable outside the documented set {TZDIR, TZ, LOCALTIME} (or in an '
                       'undocumented place) influences name resolution', construct='getenv:%s:%s' % (v, fname(kk)))
     for v in want_env:
@@ -223,6 +230,12 @@ def run(ctx):
                           construct='tzdir-override', detail='non-null (%s), non-empty (%s)' % (nonnull, nonempty))
     # $TZ and $LOCALTIME override whenever they are set (an empty value is a value)
     u, f = ctx.fn('cctz::local_time_zone')
+    f_local = f
+    for (uu_, ff_) in ctx.scope(f):
+        if any(x_.get('kind') == 'CallExpr' and callee(x_) and callee(x_)[0] == 'fn' and callee(x_)[1].get('name') in ('getenv', 'secure_getenv')
+               for x_ in walk(ff_)):
+            u, f = uu_, ff_          # the part of local_time_zone that consults the environment
+            break
     F = ctx.facts(f)
     envvars = {}
     for x in walk(f):
@@ -357,7 +370,7 @@ def run(ctx):
     if n_lists < 1:
         raise AnalysisBroken('C19-path: no prefix list walked by a zone source was found')
     ctx.minimum('C19-path', 2)
-    lits = set(y.get('value') for y in walk(f) if y.get('kind') == 'StringLiteral')
+    lits = set(y.get('value') for (uu_, ff_) in ctx.scope(f_local) for y in walk(ff_) if y.get('kind') == 'StringLiteral')
     for lit in ('":localtime"', '"localtime"', '"/etc/localtime"'):
         ctx.check(lit in lits, 'C19-env', 'local_time_zone uses %s' % lit, f,
                   'the documented default %s is not used by local_time_zone' % lit, construct='lit:%s' % lit)
